@@ -329,7 +329,11 @@ def handleCollector (j : Json) : IO Unit := do
   let ttl := Olla.Gen.Retry.collectorEndpointTTL
   let iv := Olla.Gen.Retry.collectorCleanupInterval
   let minute : Int := 60000000000
-  let tag := s!"collector-history.{if jnat (jget impl "endpoints") > 50 then "above" else "within"}-tracked-limit"
+  let second : Int := 1000000000
+  -- round 8: histories with busy-fleet rounds (as many endpoints busy at a clean-up pass as the collector tracks, one
+  -- fewer, more, many more) carry their own tag, by the largest number of endpoints that were busy at once
+  let tag := s!"collector-history.{if jnat (jget impl "endpoints") > 50 then "above" else "within"}-tracked-limit" ++
+    (if jbool (jget impl "fleet") then s!".busy-fleet-{if jnat (jget impl "max_busy") > 50 then "above" else "within"}-tracked-limit" else "")
   let mut st := CState.empty
   let mut t : Int := 0
   let mut last : Int := 0
@@ -339,7 +343,7 @@ def handleCollector (j : Json) : IO Unit := do
   for o in ops do
     let op := jstr (jget o "op")
     let e := jnat (jget o "e")
-    let d : Int := jint (jget o "min") * minute
+    let d : Int := jint (jget o "min") * minute + jint (jget o "sec") * second
     let mut bad := ""
     if op == "open" then
       st := cstep activeCleanup ttl st (.ev (.inc e) t)
@@ -375,7 +379,7 @@ def handleCollector (j : Json) : IO Unit := do
       let told := String.intercalate " " (((ops.take (i + 1)).reverse.take 40).reverse.map (fun o =>
         let op := jstr (jget o "op")
         if op == "open" then s!"open({jnat (jget o "e")})" else if op == "finish" then s!"finish({jnat (jget o "e")},{if jbool (jget o "ok") then "ok" else "error"})"
-        else s!"{op}({jnat (jget o "min")}min)"))
+        else s!"{op}({jnat (jget o "min")}min{if jnat (jget o "sec") > 0 then s!" {jnat (jget o "sec")}s" else ""})"))
       emit case agree (sig == "") tag sig s!"one collector, {jnat (jget impl "endpoints")} endpoints, operation {i} (the last 40: {told}): [endpoint, in flight, gauge] {watch}; global [total,ok,failed] [{gT},{gO},{gF}] after {finished} finished attempts ({okN} ok); the attempt's endpoint: record present {jbool (jget o "row_present")}, its numbers {(jget o "row").compress}, gained {(jget o "gain").compress}; model gauges {watch.map (fun w => reported st (w.getD 0 0).toNat)}"
       return
     i := i + 1
